@@ -322,3 +322,54 @@ func explore(newExec func() *execCtl, maxSchedules int, maxSteps int) (nSched in
 	n, next, tr := exploreFrom(newExec, nil, maxSchedules, maxSteps)
 	return n, tr || next != nil
 }
+
+// exploreRandom runs n schedules with uniformly random choices (deterministic in seed): used where the
+// schedule space is too large to enumerate, in addition to a DFS prefix.
+func exploreRandom(newExec func() *execCtl, n int, seed uint64, maxSteps int) {
+	x := seed*2862933555777941757 + 3037000493
+	rnd := func(w int) int {
+		x ^= x << 13
+		x ^= x >> 7
+		x ^= x << 17
+		return int(x % uint64(w))
+	}
+	for i := 0; i < n; i++ {
+		ex := newExec()
+		s := ex.s
+		s.settle()
+		var choices []int
+		deadlock := false
+		for step := 0; !s.allDone() && step <= maxSteps; step++ {
+			en := s.enabled()
+			if ex.filter != nil {
+				var keep []*proc
+				for _, p := range en {
+					if ex.filter(p) {
+						keep = append(keep, p)
+					}
+				}
+				en = keep
+			}
+			var env []func()
+			if ex.extra != nil {
+				env = ex.extra()
+			}
+			if len(en) == 0 {
+				deadlock = true
+				break
+			}
+			c := rnd(len(en) + len(env))
+			choices = append(choices, c)
+			if c < len(en) {
+				s.step(en[c])
+			} else {
+				env[c-len(en)]()
+				s.settle()
+			}
+		}
+		ex.done(deadlock, choices)
+		if !deadlock {
+			s.drain()
+		}
+	}
+}
